@@ -28,6 +28,7 @@ type renderCase struct {
 	JSONVal    json.RawMessage `json:"json_value,omitempty"`
 	XMLVal     *xmlDoc         `json:"xml_value,omitempty"`
 	Bytes      core.B          `json:"bytes,omitempty"`
+	Overlap    bool            `json:"overlapping_second_request,omitempty"` // a second request passes the Renderer middleware while this one holds its Render and has not rendered yet
 }
 
 type xmlItem struct {
@@ -108,6 +109,7 @@ func genRenderCase(rng *rand.Rand) *renderCase {
 		XMLIndent:  []string{"", "", "  ", "\t"}[rng.Intn(4)],
 		Depth:      rng.Intn(3),
 		Where:      []string{"app", "group", "route"}[rng.Intn(3)],
+		Overlap:    rng.Intn(5) == 0,
 	}
 	switch c.Kind {
 	case "json":
@@ -226,7 +228,19 @@ func judgeRender(w *core.W, c *renderCase) {
 	if c.Kind == "json" {
 		_ = json.Unmarshal(c.JSONVal, &jsonIn)
 	}
-	final := func(r flamego.Render) {
+	// Overlap: the judged request (X-Who: a) parks after it has received its Render until a second
+	// request (X-Who: b) has passed the Renderer middleware and rendered its own plain text.
+	gotRender := make(chan struct{})
+	otherDone := make(chan struct{})
+	final := func(r flamego.Render, req *http.Request) {
+		if c.Overlap && req.Header.Get("X-Who") == "b" {
+			r.PlainText(299, "other-request")
+			return
+		}
+		if c.Overlap {
+			close(gotRender)
+			<-otherDone
+		}
 		o.ran = true
 		switch c.Kind {
 		case "json":
@@ -265,11 +279,38 @@ func judgeRender(w *core.W, c *renderCase) {
 		target = "/g/r"
 	}
 	spy := &retSpy{h: http.Header{}}
+	var other *retSpy
+	if c.Overlap {
+		other = &retSpy{h: http.Header{}}
+		go func() {
+			defer close(otherDone)
+			defer func() { _ = recover() }()
+			<-gotRender
+			f.ServeHTTP(other, &http.Request{Method: "POST", URL: &url.URL{Path: target}, Header: http.Header{"X-Who": {"b"}}})
+		}()
+	}
 	func() {
-		defer func() { o.pan = recover() }()
-		f.ServeHTTP(spy, &http.Request{Method: "POST", URL: &url.URL{Path: target}, Header: http.Header{}})
+		defer func() {
+			o.pan = recover()
+			if c.Overlap {
+				select {
+				case <-gotRender:
+				default:
+					close(gotRender) // the handler never ran: release the helper
+				}
+				<-otherDone
+			}
+		}()
+		f.ServeHTTP(spy, &http.Request{Method: "POST", URL: &url.URL{Path: target}, Header: http.Header{"X-Who": {"a"}}})
 	}()
 	o.status, o.body, o.ctype = spy.status, spy.body, spy.h.Get("Content-Type")
+	if c.Overlap && o.pan == nil {
+		w.Count("overlapping-requests")
+		if other.status != 299 || string(other.body) != "other-request" {
+			w.Violate("render", c, fmt.Sprintf("the overlapping second request received status %d body %q instead of its own 299 \"other-request\" (rendered output crossed between requests)", other.status, clip(string(other.body))))
+			return
+		}
+	}
 	if msg := renderVerdict(c, o); msg != "" {
 		w.Violate("render", c, msg)
 		return
@@ -312,7 +353,7 @@ func judgeRender(w *core.W, c *renderCase) {
 }
 
 func runC17(r *core.Run) {
-	r.Rule("one Render call per case: JSON (random trees of objects/arrays/strings incl. <>& and control characters/numbers/bools/null, depth<=3), XML (struct with attributes, nested elements, chardata, optional pointer field; XML-valid characters), Binary (arbitrary bytes), PlainText; statuses 100-599; Charset default/custom, JSON/XML indent off/on; Renderer installed as application middleware, group handler or route handler with 0-2 handlers in between. Oracle: recorded status and Content-Type; body decoded back with encoding/json / encoding/xml deep-equals the input and equals the standard encoder's output for the configured indent; bytes and text verbatim. non-trivial = distinct (method, options, placement, status, value)")
+	r.Rule("one Render call per case: JSON (random trees of objects/arrays/strings incl. <>& and control characters/numbers/bools/null, depth<=3), XML (struct with attributes, nested elements, chardata, optional pointer field; XML-valid characters), Binary (arbitrary bytes), PlainText; statuses 100-599; Charset default/custom, JSON/XML indent off/on; Renderer installed as application middleware, group handler or route handler with 0-2 handlers in between; 1/5 of the cases with a second request overlapping between receiving Render and rendering. Oracle: recorded status and Content-Type; body decoded back with encoding/json / encoding/xml deep-equals the input and equals the standard encoder's output for the configured indent; bytes and text verbatim. non-trivial = distinct (method, options, placement, status, value)")
 	r.Assume("values are encodable (valid UTF-8 strings for JSON, XML-valid characters for XML); request method POST")
 	c17Canaries(r)
 	n := r.N(100000, 6000000)
@@ -321,7 +362,7 @@ func runC17(r *core.Run) {
 		w.Begin("render", c)
 		judgeRender(w, c)
 	})
-	for _, k := range []string{"kind:json", "kind:xml", "kind:binary", "kind:text", "where:app", "where:group", "where:route", "custom-charset", "indented:json", "indented:xml"} {
+	for _, k := range []string{"kind:json", "kind:xml", "kind:binary", "kind:text", "where:app", "where:group", "where:route", "custom-charset", "indented:json", "indented:xml", "overlapping-requests"} {
 		r.GateCounter(k, 500)
 	}
 	r.Gate("distinct_nontrivial", r.NonTrivialCount(), 5000)
